@@ -88,7 +88,7 @@ CLAIMED['C15'] = dict(
          'Invalid tokens exactly for malformed or non-scalar escapes, radix accumulators (bases 2..36 and base-64) equal the sum of digit values over the maximal digit prefix; the main Lexer::lex loop driven on one '
          'numeric literal (`<radix>r<digits>` for radix 2, 3, 8, 10, 16, 35, 36; `0x/0b/0o<digits>`; decimal; `<digits>q`) with 1-3 symbolic digits yields exactly one IntLit / RatLit token holding the number the text spells; '
          'the parser units try_consume_u8 / try_consume_usize return the literal\'s value iff it is in range and a parse error otherwise (for every integer); no path panics.',
-    note='Partial: the Lexer::lex dispatch loop on arbitrary text (identifiers, operators, comments), the recursive-descent parser beyond the two integer units, format-string bodies, float literals (std parse) and literal evaluation are outside.',
+    note='Partial: the Lexer::lex dispatch loop on arbitrary text (identifiers, operators, comments), the recursive-descent parser beyond the two integer units, format-string bodies, float literals (std parse) and literal evaluation are outside. Added: totality of the lex loop on a number followed by any non-ASCII character.',
     design='§7 C15/C16', technique='symbolic execution of rustc MIR + SMT (z3) over symbolic character sequences')
 CLAIMED['C14'] = dict(
     text='Panic-reachability by symbolic execution: a sweep over the builtin closures registered in initialize (found from the `name: .., body: |..|` registrations of the current source), each run with '
